@@ -209,7 +209,7 @@ func (c *wsConn) handleOutChans() {
 			}
 
 			registration := val.Interface().(outChanReg)
-			vhook("fwd.reg", c, "ch", registration.chID, "id", registration.reqID)
+			vhook("fwd.reg", c, "ch", registration.chID, "id", registration.reqID, "hp", registration.ch.Pointer())
 
 			caseToID = append(caseToID, registration.chID)
 			cases = append(cases, reflect.SelectCase{
